@@ -24,6 +24,9 @@ GATING_FAULTS = ['stat:ENOENT', 'stat:EACCES', 'openr:ENOENT', 'openr:EACCES', '
                  'openw:ENOENT', 'openw:EACCES', 'openw:EISDIR', 'openw:EROFS', 'stdin:closed', 'stdin:empty', 'stdin:data', 'read:EIO']
 
 
+QUICK_SLOW_JOB = (8.0, 2)      # quick tier: if a run of the scenario takes more than 8 s, stop after base and basej
+
+
 def variants(prop, tier):
     return ['asan', 'plain', 'valgrind']
 
@@ -230,7 +233,28 @@ def random_args(rng):
     return a
 
 
+def gen_huge_spec(rng):
+    """one record of more than a million residues plus a short fragment of it: frames or integer types that grow with
+    the input (VLAs, alloca, 16/32-bit lengths) meet a production-sized stack (8 MB in the non-ASan builds) here.  Plain
+    build only, no fault placements: the point is the size"""
+    kind = rng.choice(['dna', 'protein'])
+    alpha = gen.DNA if kind == 'dna' else gen.PROT
+    L = rng.choice([1050000, 1100000, 1200000, 1300000])
+    unit = gen.rand_seq(rng, alpha, 5000)
+    big = (unit * (L // len(unit) + 1))[:L]
+    p0 = rng.randrange(0, L - 300)
+    frag = big[p0:p0 + rng.randint(60, 200)]
+    wl = {'kind': kind, 'profile': 'huge', 'shape': 'pair', 'names': ['big', 'frag'], 'seqs': [big, frag], 'type': gen.T_UNDEF, 'gpo': -1.0, 'gpe': -1.0, 'tgpe': -1.0}
+    data = gen.fasta_bytes(wl['names'], wl['seqs'])
+    w = gen.gen_world(rng, calm=True); w['wall_limit'] = 120
+    return {'kind': 'C05', 'prop': 'C05', 'cls': 'wellformed', 'mode': rng.choice(['cli', 'lib']), 'wl': wl, 'fmt_in': 'fasta', 'fmt_out': 'fasta', 'muts': [],
+            'data': data.decode('latin-1'), 'nthreads': rng.choice([1, 2]), 'quiet': 1, 'world': w, 'junk2': rng.getrandbits(62), 'vg': 0, 'extra_args': [],
+            'outpath': 'out.afa', 'faults': [], 'huge': 1}
+
+
 def gen_spec(prop, rng, tier):
+    if rng.random() < (0.0006 if tier == 'quick' else 0.002):
+        return gen_huge_spec(rng)
     wl = gen.gen_workload(rng, weights=[25, 45, 12, 4, 2, 6, 6])
     if rng.random() < 0.03:
         wl = gen.gen_workload(rng, profile=rng.choice(['many', 'boundary', 'seqcap']))       # > 512 records: array growth in every reader
@@ -239,6 +263,8 @@ def gen_spec(prop, rng, tier):
     vg = 1 if rng.random() < (0.02 if tier == 'quick' else 0.06) else 0
     if vg and tier == 'quick' and wl['profile'] in ('hirsch', 'kmeans', 'medium', 'ratio'):
         vg = 0                         # memcheck is ~30x slower: quick tier keeps to small inputs
+    if vg and tier == 'quick' and max(len(x) for x in wl['seqs']) > 400:
+        vg = 0                         # (also a small set with one record stretched to 1536 residues)
     if vg and tier != 'quick' and rng.random() < 0.5:
         # memcheck sample: also reach the parallel Hirschberg region (>= 500 columns)
         wl = gen.gen_workload(rng, profile='hirsch')
@@ -443,6 +469,9 @@ def fault_name(f):
 
 def plans_of(spec):
     out = []
+    if spec.get('huge'):
+        p, ix2 = build_plan(spec, None, 'basej', junk=spec['junk2'])
+        return [('basej', 'plain', p, ix2, True)]
     p, ix = build_plan(spec, None, 'base')
     out.append(('base', 'asan', p, ix))
     p, ix2 = build_plan(spec, None, 'basej', junk=spec['junk2'])
@@ -591,11 +620,14 @@ def outcome(spec, res, ix, fault):
         names, seqs = spec['wl']['names'], spec['wl']['seqs']
         if mode == 'lib' and any(lo[0] == 'M' and lo[1] for lo in spec.get('libops') or []):
             names = ['SEQ%d' % (i + 1) for i in range(len(names))]      # reformat_settings_msa(rename=1)
+        checked_names = mode == 'lib' and any(lo[0] == 'V' for lo in spec.get('libops') or [])
         if len(rows) > len(names):
             return ('BAD', 'INVALID_ALIGNMENT', 'more rows than records')
         for k, (n, r) in enumerate(rows):
             res_ = bytes(c for c in r if c != 0x2d).decode('latin-1')
-            if n.decode('latin-1') != names[k] and k < len(rows) - 1:
+            # (kalign_check_msa renames records that share a name: a name cut short by the fault - 's4' from 's41' - can
+            #  collide with an earlier one, so names are not judged here when that call is part of the scenario)
+            if n.decode('latin-1') != names[k] and k < len(rows) - 1 and not checked_names:
                 return ('BAD', 'INVALID_ALIGNMENT', 'row %d has the wrong name after a read fault' % k)
             if k < len(rows) - 1 and res_ != seqs[k]:
                 return ('BAD', 'INVALID_ALIGNMENT', 'row %d does not reproduce record %d delivered before the read fault' % (k, k))
